@@ -241,11 +241,12 @@ type Intrinsic func(e *Engine, p *Path, ic *ICall)
 
 // reserved interface tags for engine-level dynamic types
 const (
-	TagCtx      = 0xFF01
-	TagOpaqErr  = 0xFF02 // opaque error object; data = identity
-	TagMultiErr = 0xFF03
-	TagRuntime  = 0xFF04 // runtime error panic value
-	TagOpaque   = 0xFF05 // any other opaque boxed value
+	TagCtx          = 0xFF01
+	TagOpaqErr      = 0xFF02 // opaque error object; data = identity
+	TagMultiErr     = 0xFF03
+	TagRuntime      = 0xFF04 // runtime error panic value
+	TagOpaque       = 0xFF05 // any other opaque boxed value
+	TagUncomparable = 0xFF06 // opaque value whose dynamic type is not comparable (e.g. a slice)
 )
 
 func NewEngine(P *Program) *Engine {
@@ -1496,7 +1497,15 @@ func (e *Engine) step(p *Path, instr ssa.Instruction) bool {
 		}
 		e.finish(fr, in, Value{ptr})
 	case *ssa.BinOp:
-		e.finish(fr, in, e.binop(in.Op, in.X.Type(), e.Eval(fr, in.X), e.Eval(fr, in.Y)))
+		xv, yv := e.Eval(fr, in.X), e.Eval(fr, in.Y)
+		if in.Op == token.EQL || in.Op == token.NEQ {
+			if _, isI := in.X.Type().Underlying().(*types.Interface); isI && len(xv) == 2 && len(yv) == 2 {
+				// comparing two interface values whose (identical) dynamic type is not comparable panics
+				u := B.BV(16, TagUncomparable)
+				e.forkFault(p, B.And(B.Eq(xv[0], u), B.Eq(yv[0], u)), "comparing uncomparable type")
+			}
+		}
+		e.finish(fr, in, e.binop(in.Op, in.X.Type(), xv, yv))
 	case *ssa.UnOp:
 		x := e.Eval(fr, in.X)
 		switch in.Op {
